@@ -185,7 +185,7 @@ struct hdr {
 /* guard blocks (level 3): the payload ends (up to 15 bytes of canary-filled slack) right in front of an inaccessible page, so that a READ or write
  * past the end of an array faults at once; released guard blocks are unmapped, so any later access faults as well */
 static size_t guard_min = 0;
-static uint64_t st_guard = 0;
+static uint64_t st_guard = 0, st_guard_fallback = 0;
 #define VPAGE 4096UL
 static int alloc_level = 0;
 static struct hdr* live_head = NULL;
@@ -278,18 +278,22 @@ static int check_canaries(struct hdr* h, const char* what){
 }
 
 static void* v_alloc(size_t size, int zero){
-    struct hdr* h;
+    struct hdr* h = NULL;
     if (guard_min && size >= guard_min){
         size_t sz16 = (size + 15) & ~(size_t)15;
         size_t maplen = ((HDR + sz16 + VPAGE - 1) & ~(VPAGE - 1)) + VPAGE;
         unsigned char* base = mmap(NULL, maplen, PROT_READ | PROT_WRITE, MAP_PRIVATE | MAP_ANONYMOUS, -1, 0);
-        if (base == MAP_FAILED) return NULL;
-        mprotect(base + maplen - VPAGE, VPAGE, PROT_NONE);
-        unsigned char* payload = base + maplen - VPAGE - sz16;
-        h = (struct hdr*)(payload - HDR);
-        h->maplen = maplen; h->base = base;
-        st_guard++;
-    }else{
+        /* the kernel limits the number of mappings per process (vm.max_map_count): when it is exhausted the block silently falls back to the
+         * canary layout instead of failing an allocation the library does not expect to fail */
+        if (base != MAP_FAILED && mprotect(base + maplen - VPAGE, VPAGE, PROT_NONE) != 0){ munmap(base, maplen); base = MAP_FAILED; }
+        if (base != MAP_FAILED){
+            unsigned char* payload = base + maplen - VPAGE - sz16;
+            h = (struct hdr*)(payload - HDR);
+            h->maplen = maplen; h->base = base;
+            st_guard++;
+        }else st_guard_fallback++;
+    }
+    if (h == NULL){
         h = __real_malloc(HDR + size + TAIL);
         if (!h) return NULL;
         h->maplen = 0; h->base = NULL;
